@@ -114,7 +114,7 @@ Proof.
   - destruct (deliver_all w folder rs p clk 0) as [w' atts] eqn:A.
     destruct (deliver_all_spec _ _ _ _ _ _ _ _ I A) as (_ & Em & Ch & Fa).
     destruct (existsb (mismatch (results_of atts)) atts) eqn:Mm; [discriminate|].
-    destruct (is_noboundary (p_shape p) && existsb a_ok atts) eqn:Nb; [discriminate|]. intros _.
+    intros _.
     split; [now rewrite map_length|]. split; [exact Em|]. split; [exact Ch|].
     rewrite <- Em, map_map. apply Forall2_map_self. intros a Ha.
     pose proof (proj1 (Forall_forall _ _) Fa a Ha) as [Hrej Hacc].
@@ -126,9 +126,6 @@ Proof.
         congruence. }
     unfold position_ok. rewrite <- Eq. destruct (a_ok a) eqn:Ok.
     + destruct (Hacc eq_refl) as (k & u' & m & l & np & H1 & H2 & H3 & H4 & H5 & H6 & H7 & H8).
-      assert (Hnb : is_noboundary (p_shape p) = false).
-      { destruct (is_noboundary (p_shape p)); [|reflexivity]. simpl in Nb.
-        assert (X : existsb a_ok atts = true) by (apply existsb_exists; eauto). congruence. }
       assert (Hpos : (0 <? np)%nat = true).
       { destruct (p_shape p); simpl in *; try discriminate; injection H6 as <-; reflexivity. }
       exists k, u', m, l. repeat split; auto.
